@@ -88,6 +88,12 @@ func genStoCase(seed int64, idx int) *stoCase {
 	}
 	// readers handed out before Finalize (an HTTP response still being written) are consumed after
 	// it, and after another file of the same factory has been filled
+	if c.Index%5 == 3 {
+		// a file that is removed without ever being finalized (what the muxer does with its open
+		// segment at Close): Remove deletes the disk file all the same
+		c.Ops = append(c.Ops, stoOp{Op: "remove"})
+		return c
+	}
 	hold := nParts > 0 && rng.Intn(2) == 0
 	if hold {
 		c.Ops = append(c.Ops, stoOp{Op: "hold"})
